@@ -51,11 +51,17 @@ class TextReal:
     def __float__(self):
         return self.value
 
+    # equality and hash agree with float's (also against int), so that a set holds the same number of
+    # elements whichever real class is used: {-0., 0} has one element with float, Decimal and this class
     def __eq__(self, o):
-        return isinstance(o, TextReal) and (self.value == o.value or (self.value != self.value and o.value != o.value))
+        if isinstance(o, TextReal):
+            return self.value == o.value or (self.value != self.value and o.value != o.value)
+        if isinstance(o, (int, float)):      # bool included: True == 1.0 for float too
+            return self.value == o
+        return NotImplemented
 
     def __hash__(self):
-        return hash(("TextReal", self.value))
+        return hash(self.value)
 
     def __repr__(self):
         return "TextReal(%r)" % self.text
